@@ -4,8 +4,13 @@ package main
 
 import (
 	"fmt"
+	"os"
 	"sort"
+
+	"golang.org/x/tools/go/ssa"
 )
+
+var dbgWhere = os.Getenv("GOITSYM_WHERE") != ""
 
 type Decision struct {
 	N      int   // number of alternatives (2 for branches)
@@ -81,6 +86,7 @@ type Ctx struct {
 	harness    string
 	reachedEnd bool
 	hchoices   []int
+	where      *ssa.Function
 	facts      map[*Term]bool
 	maxDepth   int
 }
@@ -262,6 +268,9 @@ func (c *Ctx) branch(cond *Term) bool {
 	// new decision
 	if c.maxDepth > 0 && len(c.trail) >= c.maxDepth {
 		panic(depthLimit{})
+	}
+	if dbgWhere && c.where != nil {
+		c.stats.Funcs["@decision in "+c.where.String()]++
 	}
 	c.stats.BranchQueries++
 	d := &Decision{N: 2, IsBr: true, Models: make([]Model, 2)}
